@@ -326,8 +326,9 @@ def r6_sorted_sizes_and_fresh_dense(ctx):
            key="C09-R6|dense-fresh")
 
 
-from ..through_time import make_rule as _mk_tt
+from ..through_time import make_rule as _mk_tt, make_t2 as _mk_t2
 _through_time = _mk_tt("C09")
+_small_edits = _mk_t2("C09")
 
 def _genome_size_and_bins(ctx):
     from .c10 import r8_bins_size_strand
@@ -339,6 +340,7 @@ RULES = [
     ("C09-R3", r3_forwarding),
     ("C09-R4", r4_caches_and_bedgraph),
     ("C09-T1", _through_time),
+    ("C09-T2", _small_edits),
     ("C09-R5", _genome_size_and_bins),
     ("C09-R6", r6_sorted_sizes_and_fresh_dense),
 ]
